@@ -212,6 +212,12 @@ def run(ctx):
                 if norm_poly(want) in eqs:
                     okf = True
                     Kused = K
+            Kdiv = T.mk('div', T.mk('sub', p, T.int(1)), q)
+            if not okf and (m.eq(T.mk('mod', T.mk('sub', p, T.int(1)), q), T.int(0)) or
+                            m.truthy(lambda n, t: n[0] == 'divisible' and n[1] == T.mk('sub', p, T.int(1)) and n[2] == q)):
+                # q | p - 1 established directly: then p = kq + 1 for the quotient k = (p-1) div q
+                okf = True
+                Kused = Kdiv
             clause('form', okf, 'p = kq + 1')
             okc = any(m.eq(T.int(1), T.mk('gcd', *sorted((q, K)))) for K in Ks)
             clause('coprime', okc, 'gcd(q, k) = 1')
